@@ -242,7 +242,7 @@ func c13Run(c *Ctx) {
 		lit := "{" + strings.Join(props, ", ") + "}"
 		plit := "{" + strings.Join(plain, ", ") + "}"
 		var src string
-		probeOrder := false
+		probeOrder, probeTwice := false, false
 		switch r.Intn(16) {
 		case 0: // side effects of initialisers in source order
 			probeOrder = true
@@ -260,6 +260,7 @@ func c13Run(c *Ctx) {
 		case 6: // fail after map iteration
 			src = Lines(Var("o", plit), Var("vs", BI("values", "o")), Print("vs[0] / (vs[1] - vs[1])"))
 		case 7: // nested literals with probes at several levels
+			probeOrder, probeTwice = true, true
 			src = Lines(Fun("p", "t, v", " "+Print("t")+" "+Ret("v")+" "), Var("o", "{"+perm[0]+": "+lit+", "+perm[1]+": ["+lit+"]}"), Print("o"))
 		case 8: // self-containing values holding multi-key objects, printed several times
 			src = Lines(Var("o", plit), "o.self = o;", Var("arr", "[o, "+plit+", 1]"), "arr[2] = arr;", Print("o"), Print("arr"), Print("o"), Print("arr"), Var("x", plit), Var("y", "{back: x, "+plain[0]+"}"), "x.fwd = y;", Print("x"), Print("[y, x, y]"))
@@ -289,6 +290,9 @@ func c13Run(c *Ctx) {
 				if kk != dupKey {
 					once = append(once, kk)
 				}
+			}
+			if probeTwice {
+				once = append(append([]string{}, once...), once...) // the literal is written twice in the program
 			}
 			cs.X = map[string]string{"nontrivial": "1", "probe_order": strings.Join(once, ",")}
 		}
